@@ -168,7 +168,8 @@ func (p *Proxy) handleRangeRequest(r responder.Responder, req *http.Request, cac
 		} else {
 			// IfRange is Time
 			timeIfRange := ifRange.ForceUnwrapRight()
-			if timeIfRange.Before(cached.Metadata.Object.LastModified) {
+			// A date validator matches only if it is exactly the stored Last-Modified (RFC 9110 section 13.1.5).
+			if !timeIfRange.Equal(cached.Metadata.Object.LastModified) {
 				slog.Info("If-Range does not match cached Last-Modified. Sending full 200 response.", "url", req.URL, "key", key)
 				return ErrIfRangeMismatch
 			}
